@@ -96,9 +96,10 @@ Lemma media_ok_has_target : forall input p, parse_media input = Ok p ->
 Proof.
   intros input p H. unfold parse_media, parse_media_with in H. unfold body.
   destruct (tag input pfx_ExtM3u) as [rest| |]; cbn [bind] in H; try discriminate.
-  exists rest.
+  exists rest. unfold parse_items in H.
   match type of H with context [run_lines ?s0 _] => destruct (run_lines s0 (lines_of rest)) as [s| |] eqn:E end;
     cbn [bind] in H; try discriminate.
+  unfold finish_media in H.
   destruct (ps_partial s); [discriminate|].
   apply build_needs_target in H. cbn [b_target] in H.
   destruct (run_lines_target _ _ _ E) as [Heq | [secs Hin]].
@@ -124,7 +125,7 @@ Lemma media_ok_items : forall input p, parse_media input = Ok p ->
 Proof.
   intros input p H. unfold parse_media, parse_media_with in H. unfold body.
   destruct (tag input pfx_ExtM3u) as [rest| |]; cbn [bind] in H; try discriminate.
-  exists rest. split; [reflexivity|].
+  exists rest. split; [reflexivity|]. unfold parse_items in H.
   match type of H with context [run_lines ?s0 _] => destruct (run_lines s0 (lines_of rest)) as [s| |] eqn:E end;
     cbn [bind] in H; try discriminate.
   eapply run_lines_ok; eassumption.
